@@ -1,19 +1,23 @@
 """C16 / C11: what the signature gate admits for a declared parameter kind — the real ParameterKind::is_valid over the real ParameterKind,
 ValueKind and ObjectKind enums.  Its contract is the table the natargs unit uses for the gate (`kind_valid`, by variant name): Object admits
 everything, Bool / Number exactly booleans / numbers, String exactly string objects, Callable exactly closures, functions, natives and bound
-methods, Enumerator exactly enumerator objects — so a native body that unwraps an argument as its declared kind never meets another kind."""
+methods, Enumerator exactly enumerator objects — so a native body that unwraps an argument as its declared kind never meets another kind.  Also the
+two small functions the natargs generator relies on for the shape of a method signature: SignatureBuilder::method_arity (the receiver is one more
+argument in every component) and Arity::required_parameter (how many declared parameters an arity needs: the variadic tail shares one)."""
 UNIT = dict(
   name='sigkind',
   properties=['C16', 'C11'],
   items=[
     ('laythe_core/src/value.rs', ['enum ValueKind']),
     ('laythe_core/src/object/mod.rs', ['enum ObjectKind']),
-    ('laythe_core/src/signature.rs', ['enum ParameterKind', ('impl ParameterKind', ['is_valid'])]),
+    ('laythe_core/src/signature.rs', ['enum ParameterKind', 'enum Arity', ('impl ParameterKind', ['is_valid']), ('impl Arity', ['required_parameter']), ('impl SignatureBuilder', ['method_arity'])]),
   ],
   rewrites=[
     ('R11', 'enum ValueKind', dict(drop=['Debug', 'Hash'], add=['Structural'])),
     ('R11', 'enum ObjectKind', dict(drop=['Debug', 'Hash'], add=['Structural'])),
     ('R11', 'enum ParameterKind', dict(drop=['Debug'], add=['Structural'], optional=True)),
+    ('R11', 'enum Arity', dict(drop=['Debug'], add=['Structural'], optional=True)),
+    ('R7', 'SignatureBuilder::method_arity', dict(pat=r'^(\s*(?:///?[^\n]*\n\s*)*)fn ', rep=r'\1pub fn ', regex=True, count=1)),
   ],
   assumption_ids=['A-heap'],
 )
